@@ -395,7 +395,8 @@ def save_score_midi(
 
         def to_ppq(t):
             # convert div times to new ppq
-            return int(ppq * (qm(t) - ftp))
+            # (round, do not truncate: the quarter map is a float interpolant)
+            return int(np.round(ppq * (qm(t) - ftp)))
 
         for tp in part.iter_all(score.Tempo):
             tempos[to_ppq(tp.start.t)] = MetaMessage(
